@@ -9,6 +9,7 @@
 -/
 import DecModel.Ops
 import DecModel.Scan
+import DecModel.Format
 
 namespace Dec
 
@@ -184,6 +185,22 @@ def scanDisagrees (o : Obs) : Option String :=
         | _ => none
   | _, _ => none
 
+/-- `some why` when the observation is one of the four formatting operations and the code-shaped formatter model
+(`DecModel/Format.lean`, a transcription of `bid128_to_string`; `C05Format.fmtCode_eq_format` proves it equal to
+the specification-level `format` for all patterns) predicts another text -/
+def fmtDisagrees (o : Obs) : Option String :=
+  match o.args with
+  | [.d x] =>
+    if o.op == "display" || o.op == "debug" || o.op == "upperexp" || o.op == "lowerexp" then
+      match fmtCodeOp o.op x, o.out with
+      | some bs, some ([.s rs], _) => if bs == rs then none else some "another text"
+      | some _, some _ => some "a text"
+      | some _, none => some "a text, the code panicked"
+      | none, none => none
+      | none, some _ => some "a panic, the code returned"
+    else none
+  | _ => none
+
 def judgeLine (tinyAfter : Bool) (line : String) : String :=
   match parseObs line with
   | none => "bad unparsable"
@@ -192,7 +209,10 @@ def judgeLine (tinyAfter : Bool) (line : String) : String :=
     | .ok c =>
       match scanDisagrees o with
       | some why => "corr scanner-model " ++ why
-      | none => "ok " ++ c
+      | none =>
+        match fmtDisagrees o with
+        | some why => "corr formatter-model predicts " ++ why
+        | none => "ok " ++ c
     | .viol c d => "viol " ++ c ++ " " ++ d
     | .bad w => "bad " ++ w
 
